@@ -625,3 +625,21 @@ def r10g(model: Model, rr: RuleResult):
         rr.ok("expand_ninja_response_files splits response-file content with shell_split")
     else:
         rr.bad(ex, ex.node, "response files are no longer split with shell_split", construct="expand_ninja_response_files")
+
+
+@RULES.rule("C10", "R10h", "every glyph-map row is produced by the csv writer (no hand-joined fast path opposite csv.reader)", floor=1)
+def r10h(model: Model, rr: RuleResult):
+    fi = model.func("glyphmap", "GlyphMapping.csv_line")
+    rets = [st for st in walk_body(fi) if isinstance(st, ast.Return) and st.value is not None]
+    if not rets:
+        raise AnalysisError("GlyphMapping.csv_line: no return")
+    cfg = cfg_of(fi)
+    for st in rets:
+        _, exprs = expr_closure(cfg, cfg.node_for(st), st.value)
+        joins = [c for e in exprs for c in ast.walk(e) if isinstance(c, ast.Call) and callee_tail(c) == "join" and isinstance(c.func, ast.Attribute) and isinstance(c.func.value, ast.Constant)
+                 and "," in str(c.func.value.value)]
+        if joins:
+            rr.bad(fi, st, f"`{short(st, 70)}` builds the row with {short(joins[0], 40)} instead of the csv writer: fields that need quoting for the reader (a leading double quote, "
+                   f"an embedded quote or newline) come back changed, so a worker opens a different file name than the driver wrote", construct=f"csv_line: hand-joined row {short(joins[0], 40)}")
+        else:
+            rr.ok(f"csv_line: `{short(st, 60)}` comes from the csv writer's buffer")
